@@ -538,6 +538,76 @@ pub fn check_play_after_end(c: &PlayAfterEnd, rec: &mut Rec) -> Result<(), Strin
     Ok(())
 }
 
+#[derive(Clone, Debug, Serialize, Deserialize)]
+pub struct StackLoad {
+    pub machine: Machine,
+    pub len: u8,
+    /// offset inside the block's payload that lands on the return address of the LD-BYTES call
+    pub k: u8,
+    pub seed: u64,
+    pub ram_seed: u64,
+}
+
+/// A block loaded over the stack (the classic autostart): LD-BYTES returns through whatever the
+/// load put where its return address was — as the ROM's own RET does.
+pub fn check_stack_load(c: &StackLoad, rec: &mut Rec) -> Result<(), String> {
+    const TARGET: u16 = 0xBE40;
+    let len = (c.len as usize % 100) + 8;
+    // LD-BYTES has pushed the address of SA/LD-RET (0x053F) below the caller's return address and
+    // leaves through it with a RET; its LD-EDGE calls work below that. A block that starts exactly at
+    // that word replaces it, and the RET at the end goes to the loaded address (anything lower would
+    // derail the real ROM while it is still loading).
+    let k = 0usize;
+    let _ = c.k;
+    let mut x = c.seed | 1;
+    let mut payload: Vec<u8> = (0..len)
+        .map(|_| {
+            x ^= x << 13;
+            x ^= x >> 7;
+            x ^= x << 17;
+            x as u8
+        })
+        .collect();
+    payload[k] = TARGET as u8;
+    payload[k + 1] = (TARGET >> 8) as u8;
+    let block = tap::block(0xFF, &payload, true);
+    let image = tap::write(&[block.clone()]);
+    let mut rig = mk_rig(c.machine, c.ram_seed, true);
+    rig.e.load_tape(Tape::Tap(DynAsset::new(MemAsset::new(image)))).map_err(|x| format!("load_tape: {:?}", x))?;
+    mach::poke_bytes(&mut rig.e, &mut rig.m, TARGET, &[0x18, 0xFE]);
+    let ix = (SP0 - 4).wrapping_sub(k as u16);
+    let rq = Request { a: 0xFF, load: true, ix, de: len as u16 };
+    setup_call(&mut rig, &rq);
+    let snapshot_mem = rig.m.clone();
+    let mut rd = |a: u16| snapshot_mem.read(a);
+    let want = ld_bytes(&block, &rq, &mut rd);
+    rec.eval();
+    let hit = mach::run_to(&mut rig.e, &[TARGET, RET_ADDR], 10)?;
+    let regs = mach::get_regs(&mut rig.e);
+    match hit {
+        Some(TARGET) => {}
+        other => {
+            return Err(format!(
+                "block of {} bytes fast-loaded to {:#06x}, over the stack: its bytes {} and {} replace the address LD-BYTES leaves through (SA/LD-RET, pushed at entry) with {:#06x}; execution continued at {:?} (SP = {:#06x}) instead",
+                len, ix, k, k + 1, TARGET, other.map(|a| format!("{:#06x}", a)), regs.sp
+            ))
+        }
+    }
+    for (a, v) in &want.stores {
+        rig.m.write(*a, *v);
+    }
+    if regs.sp != SP0 - 2 || (regs.af & 1 == 1) != want.carry || regs.ix != want.ix || regs.de != want.de {
+        return Err(format!(
+            "block loaded over the stack: returned with SP={:#06x} carry={} IX={:#06x} DE={:#06x}; LD-BYTES gives SP={:#06x} carry={} IX={:#06x} DE={:#06x}",
+            regs.sp, regs.af & 1, regs.ix, regs.de, SP0 - 2, want.carry, want.ix, want.de
+        ));
+    }
+    compare_memory(&rig, "block loaded over the stack")?;
+    rec.class("block-loaded-over-the-stack");
+    rec.nontrivial(fnv(format!("{:?}", c).as_bytes()));
+    Ok(())
+}
+
 /// Targeted probe for a listed finding: one LOAD request on an empty tape.
 pub fn probe_end_of_tape_success() -> Result<bool, String> {
     let c = Case {
@@ -561,6 +631,12 @@ pub fn run(run: &mut Run) {
     let t = run.tier;
     run.explore("request-sequences", t.pick(6_000, 200_000), case_strategy, check);
     run.explore(
+        "block-loaded-over-the-stack",
+        t.pick(400, 20_000),
+        || (prop_oneof![Just(Machine::K48), Just(Machine::K128)], any::<u8>(), any::<u8>(), any::<u64>(), any::<u64>()).prop_map(|(machine, len, k, seed, ram_seed)| StackLoad { machine, len, k, seed, ram_seed }),
+        check_stack_load,
+    );
+    run.explore(
         "play-pressed-after-the-end",
         t.pick(96, 3_000),
         || {
@@ -572,6 +648,9 @@ pub fn run(run: &mut Run) {
 }
 
 pub fn replay(run: &mut Run, phase: &str, case: &serde_json::Value) -> Result<(), String> {
+    if phase == "block-loaded-over-the-stack" {
+        return run.replay_one::<StackLoad, _>(phase, case, check_stack_load);
+    }
     if phase == "play-pressed-after-the-end" {
         return run.replay_one::<PlayAfterEnd, _>(phase, case, check_play_after_end);
     }
@@ -579,7 +658,7 @@ pub fn replay(run: &mut Run, phase: &str, case: &serde_json::Value) -> Result<()
 }
 
 pub const LEVEL: &str = "exploration";
-pub const RULE: &str = "case = machine (128K with the 48K BASIC ROM paged) x TAP image of 0..6 blocks (flag 0x00/0xFF/any, payload lengths biased to 0,1,2,17 and the 127/128/129 and 255/256/257/258 buffer boundaries, up to 2000, right or wrong checksum, optionally a truncated tail) x sequence of 1..8 calls of the ROM routine at 0x0556 from a RAM stub (A = block flag or generated, LOAD or VERIFY, IX anywhere incl. ROM and the 0xFFFF wrap, DE around the block length, 0, 1, >= 0xFF00, uniform; VERIFY memory pre-filled to match or mismatch at a chosen index), continuing past the end of the tape; preludes: nothing / an SZX snapshot loaded first / latch locked then an ignored paging write / PLAY and STOP pressed before the requests / fast loading off at construction and switched on at run time / on at construction and switched off at run time (then nothing may be loaded from the stopped deck); in a fifth of the cases the host's debugger has a breakpoint on the trap address 0x056B and resumes on every hit. Oracle: LD-BYTES semantic model written from the ROM listing; compared at the return address: carry, IX, DE and all RAM outside system variables and the stack page. Past the end: within 150 frames the routine must not return with carry set and IX, DE, AF' must be intact. play-pressed-after-the-end: a one-block tape is fast-loaded, a second request is left waiting at the end, the host presses PLAY: the waiting request must receive block 1 in real time with the result LD-BYTES gives for it. non-trivial = request that is not 'matching flag, LOAD, DE = length' or a block longer than 128 bytes; distinct = hash of (case, request index)";
+pub const RULE: &str = "case = machine (128K with the 48K BASIC ROM paged) x TAP image of 0..6 blocks (flag 0x00/0xFF/any, payload lengths biased to 0,1,2,17 and the 127/128/129 and 255/256/257/258 buffer boundaries, up to 2000, right or wrong checksum, optionally a truncated tail) x sequence of 1..8 calls of the ROM routine at 0x0556 from a RAM stub (A = block flag or generated, LOAD or VERIFY, IX anywhere incl. ROM and the 0xFFFF wrap, DE around the block length, 0, 1, >= 0xFF00, uniform; VERIFY memory pre-filled to match or mismatch at a chosen index), continuing past the end of the tape; preludes: nothing / an SZX snapshot loaded first / latch locked then an ignored paging write / PLAY and STOP pressed before the requests / fast loading off at construction and switched on at run time / on at construction and switched off at run time (then nothing may be loaded from the stopped deck); in a fifth of the cases the host's debugger has a breakpoint on the trap address 0x056B and resumes on every hit. Oracle: LD-BYTES semantic model written from the ROM listing; compared at the return address: carry, IX, DE and all RAM outside system variables and the stack page. Past the end: within 150 frames the routine must not return with carry set and IX, DE, AF' must be intact. block-loaded-over-the-stack: a block whose first bytes replace the address LD-BYTES has pushed for its own exit must leave through the loaded address with SP, carry, IX, DE and memory as the ROM leaves them. play-pressed-after-the-end: a one-block tape is fast-loaded, a second request is left waiting at the end, the host presses PLAY: the waiting request must receive block 1 in real time with the result LD-BYTES gives for it. non-trivial = request that is not 'matching flag, LOAD, DE = length' or a block longer than 128 bytes; distinct = hash of (case, request index)";
 pub const ASSUMPTIONS: &[&str] = &[
     "LD-BYTES model from the ROM disassembly (flag compare skipped when D = 0xFF, store/compare order, parity over all bytes, DE = 0 shortcut, short block = time-out failure, long block = parity failure); cross-checked against the real ROM code running in real time by C11's system-level phase",
     "A, H, L, the zero flag are not compared; system variables 0x5C00-0x5CBF and the stack/stub page 0xBD00-0xBFFF are excluded from the memory comparison",
